@@ -271,6 +271,11 @@ impl<'a> Gen<'a> {
     fn value_paths(&mut self) -> Vec<(Expr, Val)> {
         let mut v = Vec::new();
         for (n, val) in self.locals.clone() {
+            if matches!(val.kind, Kind::IfaceTy(..)) {
+                // a declaration is not used as a value (exporting it under another name is a known
+                // graph-level defect outside this property)
+                continue;
+            }
             v.push((Expr::Ident(n.clone()), val.clone()));
             if let Kind::Inst(_, es) = &val.kind {
                 for (en, ek) in es {
@@ -335,6 +340,13 @@ impl<'a> Gen<'a> {
         let import_names: Vec<&String> = p.imports.iter().map(|(n, _)| n).collect();
         for (n, k) in &p.imports {
             let seg = last_segment(n);
+            // an explicit import of this very name must be passed, else `...` would conflict with it
+            if self.import_names.contains(n) && self.r.chance(9, 10) {
+                if let Some((l, _)) = self.locals.iter().find(|(l, v)| v.ext.as_ref() == Some(n) && v.kind.sub(k) && approx_infer(l, v, &p.imports) == *n) {
+                    args.push(Arg::Inferred(l.clone()));
+                    continue;
+                }
+            }
             match self.r.below(10) {
                 0..=2 => {
                     // inferred: a local of a fitting kind whose name infers to `n`
@@ -446,7 +458,7 @@ impl<'a> Gen<'a> {
                     }
                 }
             }
-            Kind::Type(..) => unreachable!(),
+            Kind::Type(..) | Kind::IfaceTy(..) => unreachable!(),
         };
         let id = self.fresh_local(Some(&seg));
         let mut as_ = match self.r.below(8) {
@@ -466,6 +478,61 @@ impl<'a> Gen<'a> {
         self.import_names.push(name.clone());
         self.locals.push((id.clone(), Val { kind, ext: Some(name) }));
         self.stmts.push(Stmt::Import(id, as_, ty));
+    }
+
+    /// `interface id { … }`; the id sometimes collides with export names used by `export … as`
+    fn gen_interface(&mut self) {
+        let id = match self.r.below(6) {
+            0 => ["out", "run", "res", "final", "a"][self.r.below(5)].to_string(),
+            _ => format!("iface{}", self.stmts.len()),
+        };
+        let fs: Vec<(String, usize)> = match self.r.below(3) {
+            0 => vec![("f".into(), 0)],
+            1 => vec![("f".into(), 0), ("g".into(), 1)],
+            _ => vec![("g".into(), 1)],
+        };
+        let kind = Kind::IfaceTy(Some(format!("{SELF}/{id}")), fs.iter().map(|(n, s)| (n.clone(), Kind::Func(*s))).collect());
+        if !self.locals.iter().any(|(n, _)| *n == id) || self.r.chance(1, 10) {
+            self.locals.push((id.clone(), Val { kind, ext: None }));
+            self.export_names.push(id.clone());
+            self.stmts.push(Stmt::Iface(id, fs));
+        }
+    }
+
+    /// `import x [as n]: <local name>` — an interface declared above (or, rarely, any local)
+    fn gen_import_ident(&mut self) {
+        let decls: Vec<(String, Val)> = self.locals.iter().filter(|(_, v)| matches!(v.kind, Kind::IfaceTy(..))).cloned().collect();
+        let (target, kind) = if !decls.is_empty() && self.r.chance(9, 10) {
+            let (n, v) = decls[self.r.below(decls.len())].clone();
+            match v.kind {
+                Kind::IfaceTy(id, es) => (n, Kind::Inst(id, es)),
+                _ => unreachable!(),
+            }
+        } else {
+            let others: Vec<(String, Val)> = self.locals.iter().filter(|(_, v)| matches!(v.kind, Kind::Func(_) | Kind::Inst(..))).cloned().collect();
+            if others.is_empty() {
+                return;
+            }
+            let (n, v) = others[self.r.below(others.len())].clone();
+            (n, v.kind)
+        };
+        let id = self.fresh_local(None);
+        let mut as_ = match self.r.below(4) {
+            0 => Some((*self.r.pick(PLAIN)).to_string()),
+            _ => None,
+        };
+        let default = match &kind {
+            Kind::Inst(Some(iid), _) if self.locals.iter().any(|(n, v)| *n == target && !matches!(v.kind, Kind::IfaceTy(..))) => iid.clone(),
+            _ => id.clone(),
+        };
+        let mut name = as_.clone().unwrap_or(default);
+        if self.import_names.contains(&name) && self.r.chance(9, 10) {
+            as_ = Some(format!("alt{}", self.import_names.len()));
+            name = as_.clone().unwrap();
+        }
+        self.import_names.push(name.clone());
+        self.locals.push((id.clone(), Val { kind, ext: Some(name) }));
+        self.stmts.push(Stmt::Import(id, as_, ImportTy::Ident(target)));
     }
 
     fn gen_expr(&mut self) -> (Expr, Option<Val>) {
@@ -544,7 +611,9 @@ impl<'a> Gen<'a> {
         }
         let n = 1 + self.r.below(6);
         for _ in 0..n {
-            match self.r.below(10) {
+            match self.r.below(12) {
+                10 => self.gen_interface(),
+                11 => self.gen_import_ident(),
                 0 => self.gen_import(),
                 1..=6 => {
                     let (e, v) = self.gen_expr();
@@ -585,7 +654,7 @@ fn for_each_expr(e: &mut Expr, f: &mut dyn FnMut(&mut Expr)) {
 fn for_each_stmt_expr(p: &mut Program, f: &mut dyn FnMut(&mut Expr)) {
     for s in &mut p.stmts {
         match s {
-            Stmt::Import(..) => {}
+            Stmt::Import(..) | Stmt::Iface(..) => {}
             Stmt::Let(_, e) | Stmt::Export(e, _) => for_each_expr(e, f),
         }
     }
@@ -624,7 +693,7 @@ fn fault(r: &mut Rng, base: &Program, lib: &[Package]) -> Option<(Program, &'sta
     let nnew = count_exprs(&mut p, &is_new);
     let nid = count_exprs(&mut p, &is_ident_e);
     let nany = count_exprs(&mut p, &any);
-    let which = r.below(14);
+    let which = r.below(16);
     let tag: &'static str = match which {
         0 if nid > 0 => {
             let k = r.below(nid);
@@ -854,6 +923,48 @@ fn fault(r: &mut Rng, base: &Program, lib: &[Package]) -> Option<(Program, &'sta
             p.stmts.insert(at, Stmt::Import(format!("extra{at}"), None, ImportTy::Path(pkg, ver, vec![seg])));
             "path-import"
         }
+        14 => {
+            // a declaration taking the name of an earlier export
+            let names: Vec<String> = p.stmts.iter().filter_map(|s| match s {
+                Stmt::Export(_, ExportOpt::As(n)) if is_ident(n) => Some(n.clone()),
+                _ => None,
+            }).collect();
+            if names.is_empty() {
+                return None;
+            }
+            let n = names[r.below(names.len())].clone();
+            p.stmts.push(Stmt::Iface(n, vec![("f".into(), 0)]));
+            "declaration-conflict"
+        }
+        15 => {
+            // an export taking the name of a declaration (or of a local name bound to one)
+            let decls: Vec<String> = p.stmts.iter().filter_map(|s| match s {
+                Stmt::Iface(id, _) => Some(id.clone()),
+                _ => None,
+            }).collect();
+            let locals: Vec<String> = p.stmts.iter().filter_map(|s| match s {
+                Stmt::Import(id, ..) => Some(id.clone()),
+                _ => None,
+            }).collect();
+            if locals.is_empty() {
+                return None;
+            }
+            let l = locals[r.below(locals.len())].clone();
+            let name = if decls.is_empty() {
+                p.stmts.insert(0, Stmt::Iface("decl".into(), vec![("g".into(), 1)]));
+                "decl".to_string()
+            } else {
+                decls[r.below(decls.len())].clone()
+            };
+            if r.chance(1, 3) {
+                // through an alias of the declaration
+                p.stmts.push(Stmt::Let("alias-of-decl".into(), Expr::Ident(name)));
+                p.stmts.push(Stmt::Export(Expr::Ident(l), ExportOpt::As("alias-of-decl".into())));
+            } else {
+                p.stmts.push(Stmt::Export(Expr::Ident(l), ExportOpt::As(name)));
+            }
+            "export-conflict"
+        }
         _ => return None,
     };
     Some((p, tag))
@@ -889,6 +1000,7 @@ fn render_error(e: &Error) -> String {
         Error::ImportConflict { name, .. } => format!("ImportConflict {name}"),
         Error::InstantiationArgMergeFailure { name, .. } => format!("InstantiationArgMergeFailure {name}"),
         Error::ExportConflict { name, .. } => format!("ExportConflict {name}"),
+        Error::DeclarationConflict { name, .. } => format!("DeclarationConflict {name}"),
         Error::InvalidExternName { name, .. } => format!("InvalidExternName {name}"),
         Error::ValidationFailure { source } => format!("ValidationFailure {source}"),
         other => {
@@ -995,10 +1107,13 @@ fn stats_of(out: &mut Out, p: &Program) {
     });
     for s in &p.stmts {
         out.count(match s {
+            Stmt::Import(_, None, ImportTy::Ident(_)) => "stmt:import-ident",
+            Stmt::Import(_, Some(_), ImportTy::Ident(_)) => "stmt:import-ident-as",
             Stmt::Import(_, None, ImportTy::Path(..)) => "stmt:import-path",
             Stmt::Import(_, Some(_), ImportTy::Path(..)) => "stmt:import-path-as",
             Stmt::Import(_, None, _) => "stmt:import-inline",
             Stmt::Import(_, Some(_), _) => "stmt:import-inline-as",
+            Stmt::Iface(..) => "stmt:interface",
             Stmt::Let(..) => "stmt:let",
             Stmt::Export(_, ExportOpt::None) => "stmt:export",
             Stmt::Export(_, ExportOpt::As(_)) => "stmt:export-as",
